@@ -83,12 +83,9 @@ func VH_C17_TaoFoto() {
 		// six fasting days: 8,14,15,23,29,30 and the 28th of a month that has no 30th
 		cnt := 0
 		for _, yy := range []int{Y - 1, Y} {
-			if yy < 1 {
-				continue
-			}
 			for i := NewLunarYear(yy).months.Front(); i != nil; i = i.Next() {
 				mm := i.Value.(*LunarMonth)
-				if mm.year == l.year && mm.month == mo && cnt == 0 {
+				if yy == l.year && mm.year == l.year && mm.month == mo && cnt == 0 { // the lunar year's own table, as NewLunarMonthFromYm uses
 					cnt = mm.dayCount
 				}
 			}
